@@ -79,9 +79,13 @@ def run_check(prop, root, tier='quick'):
 def run_mutant(m, verbose=False):
     root = scratch_copy()
     try:
-        err = apply_edits(root, m.get('edits', []))
-        if not err and m.get('patch'):
-            err = apply_patch(root, m['patch'])
+        if m.get('patch') and m.get('patch_first'):
+            # a break applied on top of a behaviour-preserving refactoring: detection must not depend on today's shape
+            err = apply_patch(root, m['patch']) or apply_edits(root, m.get('edits', []))
+        else:
+            err = apply_edits(root, m.get('edits', []))
+            if not err and m.get('patch'):
+                err = apply_patch(root, m['patch'])
         if err:
             return False, 'STALE: ' + err
         rc, out = run_check(m['property'], root, m.get('tier', 'quick'))
